@@ -533,16 +533,22 @@ impl Mp4Track {
                             )?;
                         }
                         let duration = trun.sample_durations[sample_idx];
-                        return Ok((base_start_time + start_offset, duration));
+                        let start_time = base_start_time.checked_add(start_offset).ok_or(
+                            Error::InvalidData("attempt to calculate start time with overflow"),
+                        )?;
+                        return Ok((start_time, duration));
                     }
                 }
                 // No per-sample durations: the default duration applies to every sample of the
                 // run, counted from the start of this run (not of the track).
                 let start_offset = sample_idx as u64 * default_sample_duration as u64;
-                return Ok((base_start_time + start_offset, default_sample_duration));
+                let start_time = base_start_time.checked_add(start_offset).ok_or(
+                    Error::InvalidData("attempt to calculate start time with overflow"),
+                )?;
+                return Ok((start_time, default_sample_duration));
             }
-            let start_offset = (sample_id - 1) as u64 * default_sample_duration as u64;
-            Ok((base_start_time + start_offset, default_sample_duration))
+            let start_offset = sample_id.saturating_sub(1) as u64 * default_sample_duration as u64;
+            Ok((start_offset, default_sample_duration))
         } else {
             let stts = &self.trak.mdia.minf.stbl.stts;
 
@@ -557,13 +563,21 @@ impl Mp4Track {
                             "attempt to sum stts entries sample_count with overflow",
                         ))?;
                 if sample_id < new_sample_count {
-                    let start_time =
-                        (sample_id - sample_count) as u64 * entry.sample_delta as u64 + elapsed;
+                    let start_time = ((sample_id - sample_count) as u64
+                        * entry.sample_delta as u64)
+                        .checked_add(elapsed)
+                        .ok_or(Error::InvalidData(
+                            "attempt to calculate stts start time with overflow",
+                        ))?;
                     return Ok((start_time, entry.sample_delta));
                 }
 
                 sample_count = new_sample_count;
-                elapsed += entry.sample_count as u64 * entry.sample_delta as u64;
+                elapsed = elapsed
+                    .checked_add(entry.sample_count as u64 * entry.sample_delta as u64)
+                    .ok_or(Error::InvalidData(
+                        "attempt to calculate stts start time with overflow",
+                    ))?;
             }
 
             Err(Error::EntryInStblNotFound(
